@@ -97,7 +97,7 @@ def correspond(ctx, scale):
     rng = ctx.rng
     failures, samples = [], []
     ev = nt = 0
-    dist = {'histories': 0, 'reload': 0, 'deepcopy': 0, 'double_reload': 0, 'reload_assign': 0, 'post_steps': 0, 'with_outer_optimizer': 0}
+    dist = {'histories': 0, 'reload': 0, 'deepcopy': 0, 'double_reload': 0, 'reload_assign': 0, 'rollback_into_used': 0, 'post_steps': 0, 'with_outer_optimizer': 0}
     reps = (2 if not ctx.thorough else 10) * scale
     for f in factories():
         for rep in range(reps):
@@ -142,6 +142,14 @@ def correspond(ctx, scale):
                 e2 = f['mk']()
                 e2.load_state_dict(copy.deepcopy(sd), assign=True)       # replaces the tensor objects instead of copying into them
                 variants.append(('reload_assign', e2))
+                # roll-back: the checkpoint is loaded into a USED module (another instance that already went through its own training steps, k-means
+                # initialisation included) - everything the module knows must come from the named store, not from host-side mirrors of it
+                u2 = f['mk']()
+                for _ in range(2):
+                    step(f, u2, make_x(), True, rng.randrange(10 ** 6), None, None)
+                u2.zero_grad(set_to_none=True)
+                u2.load_state_dict(copy.deepcopy(sd))
+                variants.append(('rollback_into_used', u2))
             except Exception as ex:
                 failures.append({'key': f'{f["name"]}:reload-exception:{type(ex).__name__}', 'what': f'{f["name"]}: load_state_dict / deepcopy raised {ex!r}', 'case': dict(name=f['name'])})
                 continue
